@@ -79,7 +79,7 @@ import (
 // ---------------------------------------------------------------------------
 
 type SeqSpec struct {
-	Kind  string `json:"kind"` // main | waitfull | timeout | bgpull | known_cancel | known_delete | known_watcher
+	Kind  string `json:"kind"` // main | waitfull | timeout | bgpull | saturate | saturate_bg | saturate_timeout | known_cancel | known_delete | known_watcher
 	Mx    int    `json:"mx"`
 	Seed  uint64 `json:"seed"`
 	Steps int    `json:"steps"`
@@ -105,6 +105,7 @@ type StepRec struct {
 	Run    []Ent  `json:"run,omitempty"`
 	Wait   []Ent  `json:"wait,omitempty"`
 	Watch  int    `json:"watch"` // -1 = not measured
+	Active int    `json:"act"`   // what the public getter GetActiveQueryCount returned
 }
 
 type Fail struct {
@@ -278,8 +279,12 @@ func (sr *seqRunner) record(rec StepRec, full bool, watch bool) {
 	run := query.VerifRunning()
 	wait := query.VerifWaiting()
 	rec.NRun, rec.NWait = len(run), len(wait)
-	if rec.NRun != query.GetActiveQueryCount() || rec.NWait != len(query.GetWaitingQueries()) {
-		sr.res.Err = "hook view and public getters disagree"
+	// the number the admission check canRunQuery compares with the limit: an observable of its own,
+	// compared with the model's active_count (= table size) in Coq; a getter that differs from the
+	// table does NOT end the sequence (the oracle below must still see what the puller does with it)
+	rec.Active = query.GetActiveQueryCount()
+	if rec.NWait != len(query.GetWaitingQueries()) {
+		sr.res.Err = "hook view of the waiting queue and GetWaitingQueries disagree"
 	}
 	rec.Full = full
 	if full {
@@ -299,7 +304,21 @@ func (sr *seqRunner) record(rec StepRec, full bool, watch bool) {
 		}
 	}
 	if nonforced > sr.spec.Mx {
-		sr.fail("admission_limit_exceeded", fmt.Sprintf("%d queries started without forceRun are in allRunningQueries, MAX_RUNNING_QUERIES=%d, after %s", nonforced, sr.spec.Mx, opString(rec)))
+		ncanc := 0
+		tbl := make([]string, 0, len(run))
+		for _, e := range run {
+			if e.Cancelled {
+				ncanc++
+			}
+			tbl = append(tbl, fmt.Sprintf("%d:cancelled=%v", e.Qid, e.Cancelled))
+		}
+		cls := "admission_limit_exceeded"
+		if ncanc > 0 && nonforced-ncanc <= sr.spec.Mx {
+			// the excess is covered by entries whose query was cancelled / timed out and is not deleted yet
+			// (a naming aid for the replay; any excess is a failure)
+			cls = "admission_limit_exceeded_with_cancelled_query_in_table"
+		}
+		sr.fail(cls, fmt.Sprintf("%d queries started without forceRun are in allRunningQueries (%s), MAX_RUNNING_QUERIES=%d, GetActiveQueryCount()=%d, after %s", nonforced, strings.Join(tbl, " "), sr.spec.Mx, rec.Active, opString(rec)))
 	}
 	if len(wait) > query.MAX_WAITING_QUERIES {
 		sr.fail("waiting_limit_exceeded", fmt.Sprintf("%d waiting queries > %d", len(wait), query.MAX_WAITING_QUERIES))
@@ -338,10 +357,113 @@ func (sr *seqRunner) doPull(full bool) {
 		sr.record(StepRec{Op: "pull", Out: out}, full, false)
 		return
 	}
+	run0, wait0 := query.VerifRunning(), query.VerifWaiting()
 	if query.VerifPullOnce() {
 		out = outOk
 	}
+	// oracle on one iteration of the puller: a table at the limit (every entry counts until
+	// DeleteQuery removed it) admits nobody; a free slot goes to the oldest waiting query
+	desc := func() string {
+		tbl := make([]string, 0, len(run0))
+		for _, e := range run0 {
+			tbl = append(tbl, fmt.Sprintf("%d:cancelled=%v", e.Qid, e.Cancelled))
+		}
+		return fmt.Sprintf("running table before the iteration [%s] (MAX_RUNNING_QUERIES=%d), %d waiting", strings.Join(tbl, " "), sr.spec.Mx, len(wait0))
+	}
+	switch {
+	case out == outOk && len(run0) >= sr.spec.Mx:
+		sr.fail("query_admitted_while_running_table_full", "one puller iteration admitted a waiting query: "+desc())
+	case out == outOk && len(wait0) > 0:
+		if w1 := query.VerifWaiting(); len(w1) != len(wait0)-1 || query.VerifRunningQuery(wait0[0].Qid) == nil {
+			sr.fail("queue_not_served_in_arrival_order", fmt.Sprintf("one puller iteration admitted a query but the head of the queue (qid %d) is not in the running table afterwards / the queue did not shrink by one (%d -> %d): %s", wait0[0].Qid, len(wait0), len(w1), desc()))
+		}
+	case out != outOk && len(run0) < sr.spec.Mx && len(wait0) > 0:
+		sr.fail("waiting_query_not_admitted_with_free_slot", "one puller iteration admitted nobody: "+desc())
+	}
 	sr.record(StepRec{Op: "pull", Out: out}, full, out == outOk)
+}
+
+// saturate: the table is filled to the limit through the queue, more queries wait, then running
+// queries reach a terminal event (cancel / executor done / real timeout) WITHOUT their handler
+// having called DeleteQuery yet, and the puller runs: nobody may be admitted until a DeleteQuery
+// frees a slot, then the oldest waiting query gets it.  Every step goes through record() (model
+// comparison + oracle).
+func (sr *seqRunner) saturate() {
+	r, spec := sr.r, sr.spec
+	mx := spec.Mx
+	k := 1 + r.Intn(3)
+	next := uint64(0)
+	newQ := func() uint64 { next++; return spec.Base + next }
+	nforced := 0
+	if spec.Kind == "saturate" && r.Chance(25) {
+		sr.doStart(newQ(), false, true, true) // a forced start takes a slot as well
+		nforced = 1
+	}
+	var qs []uint64
+	for i := 0; i < mx-nforced+k; i++ {
+		q := newQ()
+		qs = append(qs, q)
+		sr.doStart(q, r.Chance(30), false, true)
+		if r.Chance(40) {
+			sr.doPull(true)
+		}
+	}
+	for i := 0; i < mx+1; i++ {
+		sr.doPull(true)
+	}
+	pullN := func(n int) {
+		for i := 0; i < n; i++ {
+			sr.doPull(true)
+		}
+	}
+	if spec.Kind == "saturate_timeout" {
+		sr.doFireAll() // every running query times out; nobody deletes it yet
+		pullN(k + 1)
+	} else {
+		run := query.VerifRunning()
+		j := 0
+		if len(run) > 0 {
+			j = 1 + r.Intn(len(run))
+		}
+		for i := 0; i < j && len(run) > 0; i++ {
+			q := run[r.Intn(len(run))].Qid
+			switch x := r.Intn(10); {
+			case x < 6:
+				sr.doCancel(q, true)
+			case x < 8:
+				sr.doExec(q, true, true)
+			default:
+				sr.doExec(q, false, true)
+			}
+			if r.Chance(50) {
+				pullN(1)
+			}
+		}
+		pullN(k + 1)
+	}
+	// the handlers get there one after the other: each DeleteQuery frees one slot
+	for round := 0; round < mx+k+1; round++ {
+		run := query.VerifRunning()
+		if len(run) == 0 {
+			break
+		}
+		e := run[r.Intn(len(run))]
+		if r.Chance(50) {
+			sr.doRecv(e.Qid, true)
+		}
+		if r.Chance(25) && !e.Cancelled {
+			if p := query.VerifRunningQuery(e.Qid); p != nil && len(p.StateChan) < sr.chanCap-1 {
+				sr.doCancel(e.Qid, true)
+				pullN(1)
+			}
+		}
+		sr.doDelete(e.Qid, true)
+		pullN(2)
+		if r.Chance(30) && len(qs) > 0 {
+			sr.doStart(newQ(), false, false, true)
+		}
+	}
+	sr.cleanup(true)
 }
 
 func countEnts(v []query.VerifEntry, q uint64) int {
@@ -570,12 +692,12 @@ func runSeq(spec SeqSpec) *SeqResult {
 	config.SetQueryTimeoutSecs(300)
 	var cancelBg context.CancelFunc
 	switch spec.Kind {
-	case "timeout":
+	case "timeout", "saturate_timeout":
 		config.SetQueryTimeoutSecs(1)
 		for i := 0; i < 300 && watcherCount() > 0; i++ { // watchers of the previous sequence
 			time.Sleep(10 * time.Millisecond)
 		}
-	case "bgpull":
+	case "bgpull", "saturate_bg":
 		var ctx context.Context
 		ctx, cancelBg = context.WithCancel(context.Background())
 		go query.PullQueriesToRun(ctx)
@@ -621,6 +743,8 @@ func runSeq(spec SeqSpec) *SeqResult {
 			sr.doFireAll()
 		}
 		sr.cleanup(true)
+	case "saturate", "saturate_bg", "saturate_timeout":
+		sr.saturate()
 	case "waitfull":
 		// MAX_WAITING_QUERIES + 3 queued starts: the last 3 must be rejected
 		n := query.MAX_WAITING_QUERIES + 3
@@ -1847,7 +1971,7 @@ func coqObs(s StepRec) string {
 	if s.Watch >= 0 {
 		w = fmt.Sprintf("(Some %d)", s.Watch)
 	}
-	return fmt.Sprintf("mkON %d %d %d %s %s", s.Out, s.NRun, s.NWait, lists, w)
+	return fmt.Sprintf("mkONA %d %d %d %s %s (Some %d)", s.Out, s.NRun, s.NWait, lists, w, s.Active)
 }
 
 func coqTrace(res *SeqResult) string {
@@ -1974,7 +2098,7 @@ func main() {
 		// qids are small numbers; only the timeout stream needs them distinct between the sequences
 		// of one worker process (its watchers do fire and look the qid up)
 		sp := SeqSpec{Kind: kind, Mx: 1 + r.Intn(3), Seed: r.U64(), Steps: stepsMain + r.Intn(30), Base: 0, Pool: 3 + r.Intn(5)}
-		if kind == "timeout" {
+		if kind == "timeout" || kind == "saturate_timeout" {
 			sp.Base = uint64(i%1000+1) * 10
 		}
 		if kind == "known_cancel" || kind == "known_delete" {
@@ -2023,6 +2147,44 @@ func main() {
 	}
 	if len(bb) > 0 {
 		batches = append(batches, bb)
+	}
+	// saturated tables: hook-driven puller, the real puller goroutine, real 1 s timeouts
+	nSat, nSatBg, nSatT := 30, 4, 2
+	if cfg.Thorough() {
+		nSat, nSatBg, nSatT = 1500, 24, 9
+	}
+	var sb []SeqSpec
+	for i := 0; i < nSat; i++ {
+		sb = append(sb, mk("saturate", 40000+i))
+		if len(sb) == perBatch {
+			batches = append(batches, sb)
+			sb = nil
+		}
+	}
+	if len(sb) > 0 {
+		batches = append(batches, sb)
+	}
+	sb = nil
+	for i := 0; i < nSatBg; i++ {
+		sb = append(sb, mk("saturate_bg", 41000+i))
+		if len(sb) == 4 {
+			batches = append(batches, sb)
+			sb = nil
+		}
+	}
+	if len(sb) > 0 {
+		batches = append(batches, sb)
+	}
+	sb = nil
+	for i := 0; i < nSatT; i++ {
+		sb = append(sb, mk("saturate_timeout", 42000+i))
+		if len(sb) == 3 {
+			batches = append(batches, sb)
+			sb = nil
+		}
+	}
+	if len(sb) > 0 {
+		batches = append(batches, sb)
 	}
 	var kb []SeqSpec
 	for i := 0; i < nKnown; i++ {
@@ -2339,6 +2501,9 @@ func main() {
 			nseq++
 			if res.Err != "" {
 				sum.HarnessError("sequence " + res.Spec.Kind + ": " + res.Err)
+				for _, f := range res.Fails { // what the oracle saw before / besides the harness problem is still reported
+					sum.Fail(f.Class, f.Detail, f.Case)
+				}
 				continue
 			}
 			if res.Skip != "" {
